@@ -258,8 +258,10 @@ func IsBigDataAction(ctx *fiber.Ctx) bool {
 	// only PutObject and UploadPart stream their body through the deferred
 	// auth reader: "/bucket/" is a bucket action, and the other object
 	// subresources read the whole body up front
-	parts := strings.Split(ctx.Path(), "/")
-	if len(parts) < 3 || (len(parts) == 3 && parts[2] == "") {
+	// (a path with nothing but slashes after the bucket name, "/bucket//",
+	// is routed to the bucket actions as well)
+	_, key, found := strings.Cut(strings.TrimPrefix(ctx.Path(), "/"), "/")
+	if !found || strings.Trim(key, "/") == "" {
 		return false
 	}
 
